@@ -72,3 +72,45 @@ Proof.
   - apply perm_swap.
   - vm_compute. discriminate.
 Qed.
+
+(* ---------------------------------------------------------------- non-vacuity of the positive theorems *)
+From FV Require Import Proofs.SchedSort Proofs.SchedNames Proofs.SchedTopo.
+
+(* repaired numbering: both sibling modules finish under both interleavings and both get __func_lit__1 *)
+Lemma names_nonvacuous :
+  finished (run false P_lits [3] s_ab) 1 = true /\ finished (run false P_lits [3] s_ba) 1 = true /\
+  names_of (run false P_lits [3] s_ab) 1 = [(KFn, 1)] /\ names_of (run false P_lits [3] s_ab) 2 = [(KFn, 1)] /\
+  s_names (run false P_lits [3] s_ab) <> s_names (run false P_lits [3] s_ba).
+Proof. repeat split; try reflexivity. vm_compute. discriminate. Qed.
+
+(* two arrival orders of diagnostics of different files: the hypothesis of the sort theorem holds, the bags differ *)
+Definition dA : diag := mkDiag (Some (0, 1)) (MText 1).
+Definition dB : diag := mkDiag (Some (1, 1)) (MText 2).
+Lemma diag_sort_nonvacuous :
+  [dA; dB] <> [dB; dA] /\
+  (forall k, filter (equiv diag_less k) [dA; dB] = filter (equiv diag_less k) [dB; dA]).
+Proof.
+  split; [discriminate|].
+  intros [[[f l]|] mg]; unfold equiv, diag_less, dA, dB; cbn [d_loc filter]; [|reflexivity].
+  destruct f as [|[|f]]; destruct l as [|[|l]]; reflexivity.
+Qed.
+
+(* a diamond 3 -> {1,2} -> 0 enumerated in two different map orders *)
+Definition g_dia : graph := [(1, [0]); (2, [0]); (3, [1; 2])].
+Lemma topo_nonvacuous :
+  NoDup (map fst g_dia) /\ Permutation g_dia (rev g_dia) /\
+  topo g_dia [0; 1; 2; 3] (fun _ => g_dia) = [0; 1; 2; 3] /\
+  topo g_dia [3; 1; 0; 2] (fun k => if Nat.even k then rev g_dia else g_dia) = [0; 1; 2; 3].
+Proof.
+  split; [repeat constructor; cbn; intuition discriminate|].
+  split; [apply Permutation_rev|]. split; reflexivity.
+Qed.
+
+Definition m_tid : tidmap := [([95; 50], [105]); ([95; 49; 48], [115]); ([95; 49], [98])].   (* _2, _10, _1 *)
+Lemma typeids_nonvacuous :
+  NoDup (map fst m_tid) /\ Permutation m_tid (rev m_tid) /\ m_tid <> rev m_tid /\
+  map fst (emit_typeids m_tid) = [[95; 49]; [95; 49; 48]; [95; 50]].
+Proof.
+  split; [repeat constructor; cbn; intuition discriminate|].
+  split; [apply Permutation_rev|]. split; [discriminate|reflexivity].
+Qed.
